@@ -21,8 +21,9 @@ import (
 // projection of the real state the specification predicts in step.post.
 
 type Post struct {
-	Held  []string   `json:"held"`
-	AtDec [][]string `json:"atdec"`
+	Held  []string          `json:"held"`
+	AtDec [][]string        `json:"atdec"`
+	Cache map[string]string `json:"cache"`
 }
 
 type Step struct {
@@ -365,10 +366,15 @@ func (r *run) step(st Step) Obs {
 		}
 	case "Reap":
 		// local or delivered trigger: the watcher is already running; remote trigger: the holds were just lifted
-		if !waitFor(3*time.Second, func() bool { _, ok := r.cached(st.P); return !ok }) {
-			serr = fmt.Errorf("%s still caches %s: no reap", st.P, r.observe().Cache[st.P])
+		// the watcher runs reapPeer: wait for the entry the specification predicts ("-" unless the variant keeps it)
+		want := st.Post.Cache[st.P]
+		if want == "" {
+			want = "-"
 		}
-		time.Sleep(500 * time.Microsecond) // reapPeer closes after deleting
+		if !waitFor(3*time.Second, func() bool { return r.observe().Cache[st.P] == want }) {
+			serr = fmt.Errorf("%s caches %s after the reap, specification says %s", st.P, r.observe().Cache[st.P], want)
+		}
+		time.Sleep(time.Millisecond) // reapPeer closes after deleting
 	case "Notice":
 		if c := r.objs[st.K][st.P]; c != nil {
 			c.CloseWithError(idleCode, "verif: idle timeout")
